@@ -1,13 +1,73 @@
 """C10 — integer <-> text conversion is exact, round-trips and respects the buffer (DESIGN §4 C10)."""
 import itertools
+import os
 import random
+import sys
 
+import lib
 from lib import Case, fmt_list
 
 PROP = "C10"
 DRIVER = "drv-c10"
 PROOF_MODULES = ["TetlProofs.C10.Props", "TetlProofs.C10.GenProps"]
 HARNESS = "harness/c10.cpp"
+# harness/c10.cpp is compiled as NPARTS translation units in parallel (-DC10_PART=k: the instantiations for two integer
+# types each, k = 8: the function-name operations) by run() below; check.py then compiles step()/main() (-DC10_PART=-1)
+# and links them.  As one translation unit it takes 50-80 s, most of the quick tier's budget.
+BASE_FLAGS = ["-g0"]
+HARNESS_FLAGS = list(BASE_FLAGS)
+NPARTS = 9
+
+
+def _build_parts():
+    """compile the translation units of the harness in parallel; returns the object files.  An object file is reused when
+    the preprocessed translation unit (every header of the tree under test expanded), the flags and the compiler are
+    byte-identical to those it was compiled from: any change of the library or of the harness gives a new key."""
+    import concurrent.futures as cf
+    import hashlib
+    os.makedirs(lib.BUILD, exist_ok=True)
+    cache = os.path.join(lib.BUILD, "c10_objcache")
+    os.makedirs(cache, exist_ok=True)
+    flags = list(lib.CXXFLAGS) + BASE_FLAGS
+    cxxv = lib.sh([lib.CXX, "--version"])[1]
+    src = os.path.join(lib.VERIF, HARNESS)
+
+    def one(k):
+        base = [lib.CXX] + flags + ["-DC10_PART=%d" % k, "-I", os.path.join(lib.REPO, "include"), "-I", os.path.join(lib.VERIF, "harness")]
+        rc, o, e = lib.sh(base + ["-E", src], timeout=600)
+        if rc != 0:
+            return None, rc, o[-200:] + e
+        key = hashlib.sha256((cxxv + "\0" + " ".join(flags) + "\0" + o).encode()).hexdigest()[:32]
+        out = os.path.join(cache, "part%d_%s.o" % (k, key))
+        if os.path.exists(out):
+            os.utime(out)
+            return out, 0, "cached"
+        tmp = out + ".%d.tmp" % os.getpid()
+        rc, o, e = lib.sh(base + ["-c", src, "-o", tmp], timeout=1800)
+        if rc == 0:
+            os.replace(tmp, out)
+        return out, rc, o + e
+
+    with cf.ThreadPoolExecutor(max_workers=NPARTS) as ex:
+        res = list(ex.map(one, range(NPARTS)))
+    bad = [r for r in res if r[1] != 0]
+    if bad:
+        raise lib.MachineryError("harness does not compile against %s:\n%s" % (lib.REPO, bad[0][2][-1500:]))
+    olds = sorted((os.path.join(cache, f) for f in os.listdir(cache)), key=os.path.getmtime)
+    for f in olds[:-8 * NPARTS]:
+        os.unlink(f)
+    return [r[0] for r in res]
+
+
+def run(ctx, replay=None):
+    """standard flow of check.py, with the translation units of the harness pre-compiled in parallel"""
+    global HARNESS_FLAGS
+    objs = _build_parts()
+    HARNESS_FLAGS = BASE_FLAGS + ["-DC10_PART=-1"] + objs
+    import check
+    return check.standard(sys.modules[__name__], ctx, replay)
+
+
 SOURCES = ["include/etl/_strings/to_integer.hpp", "include/etl/_strings/from_integer.hpp",
            "include/etl/_strings/strto_integer.hpp", "include/etl/_cctype/isxdigit.hpp", "include/etl/_algorithm/reverse.hpp",
            "include/etl/_numeric/abs.hpp", "include/etl/_math/abs.hpp",
